@@ -1,23 +1,36 @@
 """Run the in-process correspondence libraries delivered by the work packages
-(checks/w*.py exposing run(ck)); missing libraries are skipped and named."""
+(checks/w*.py exposing run(ck)); missing libraries are skipped and named.
+Libraries run concurrently (each builds its own harness into ck.tmp)."""
 import importlib
 import os
+import threading
 
 
 def run_libs(ck, names):
     here = os.path.dirname(os.path.abspath(__file__))
     done = []
-    for n in names:
-        if not os.path.exists(os.path.join(here, n + '.py')):
-            continue
+    lock = threading.Lock()
+
+    def one(n):
         try:
             m = importlib.import_module(n)
             r = m.run(ck)
-            done.append((n, r))
-            ck.log('in-process library %s: %s' % (n, str(r)[:300]))
+            with lock:
+                done.append((n, r))
+            ck.log('in-process library %s: %s' % (n, str(r)[:240]))
         except SystemExit:
             raise
         except Exception as e:     # a crashing library is broken machinery
-            ck.broken.append('in-process library %s crashed: %r' % (n, e))
-    ck.inproc = done
+            with lock:
+                ck.broken.append('in-process library %s crashed: %r' % (n, e))
+    ths = []
+    for n in names:
+        if not os.path.exists(os.path.join(here, n + '.py')):
+            continue
+        t = threading.Thread(target=one, args=(n,), name='lib-' + n)
+        t.start()
+        ths.append(t)
+    for t in ths:
+        t.join()
+    ck.inproc = sorted(done)
     return done
